@@ -321,7 +321,7 @@ class _Delegate(PairingDelegate):
         self.shared['number'] = number
         if self.shared.get('modal'):
             # a modal dialog: the number stays on screen until the pairing is over
-            for _ in range(400):
+            for _ in range(100000):          # longer than any settle budget: the dialog never gives up on its own
                 if self.shared.get('over'):
                     break
                 await asyncio.sleep(0.05)
